@@ -140,9 +140,9 @@ def in_scope(o, untrusted, eng):
             deps |= Q.params(Q.leaves(f[0]))
     o.scope_deps = deps
     for p in deps:
-        root = p.split(".")[0]
-        if root in untrusted:
-            return True
+        for u in untrusted:
+            if p == u or p.startswith(u + "."):
+                return True
     return False
 
 
